@@ -5,7 +5,7 @@ import os
 import lib
 
 MODEL_DEPS = ['CheckLib', 'Loopback']
-KERNELS = ()
+KERNELS = ('Inverse', 'ChainContext')
 TRUSTED = ['Coq 8.16.1 kernel; vm_compute in case shards and the Example',
            'hand-written Model/Loopback.v (BagContext / ChainContext / IdentityContext reverse, loopback) for six layer kinds with one forward and one '
            'backward field, tied by the correspondence; the Inverse wrapper and the factory glue are exercised, not modelled']
